@@ -24,7 +24,19 @@ class KNXIPHeader:
     def from_knx(self, data: bytes) -> int:
         """Parse/deserialize from KNX/IP raw data."""
         if len(data) < KNXIPHeader.HEADERLENGTH:
-            raise IncompleteKNXIPFrame("wrong connection header length")
+            # only the beginning of a valid header can be completed by further data
+            if data[:1] not in (b"", bytes((KNXIPHeader.HEADERLENGTH,))):
+                raise CouldNotParseKNXIP("wrong connection header length")
+            if data[1:2] not in (b"", bytes((KNXIPHeader.PROTOCOLVERSION,))):
+                raise CouldNotParseKNXIP("wrong protocol version")
+            if len(data) >= 4:
+                try:
+                    KNXIPServiceType(data[2] * 256 + data[3])
+                except ValueError:
+                    raise CouldNotParseKNXIP(
+                        f"KNXIPServiceType unknown: 0x{data[2:4].hex()}"
+                    ) from None
+            raise IncompleteKNXIPFrame("incomplete KNX/IP header")
         if data[0] != KNXIPHeader.HEADERLENGTH:
             raise CouldNotParseKNXIP("wrong connection header length")
         # set immediately, as we need it for tcp stream parsing before raising exception
